@@ -271,6 +271,14 @@ def _cases(task):
                             args = [DEFAULT] * n
                             args[pos] = c
                             yield {"abi": abi, "conv": conv, "profile": prof, "where": "nonleaf", "args": args, "argform": form}
+        # the same with an earlier modification of the very block (family J of the seeded changes)
+        for prof in ("default", "noalign"):
+            for n in (1, 2, nregs + 1):
+                for c in ("fn-int", "fn-sym"):
+                    for where in ("nonleaf", "leaf"):
+                        args = [DEFAULT] * n
+                        args[-1] = c
+                        yield {"abi": abi, "conv": conv, "profile": prof, "where": where, "args": args, "pre_bytes": True}
     elif kind == "C3":
         prof, first = task[3], task[4]
         for b in CLASSES:
@@ -296,6 +304,8 @@ class RecordingCallPatch(CallPatch):
         return "nop\n" + asm
 
 
+PRE_BYTES = {"x64": (b"\x90\x90\x90", "nop\nnop\nnop\n"), "ia32": (b"\x90\x90\x90", "nop\nnop\nnop\n"),
+             "arm64": (bytes.fromhex("1f2003d5"), "nop\n"), "mips32": (bytes(4), "nop\n")}
 ARG_FORMS = {
     "list": list,
     "tuple": tuple,
@@ -377,6 +387,16 @@ def _generate(case):
         raise
     block = site_blocks[ev]
     patch.only = block
+    pre = b""
+    if case.get("pre_bytes"):
+        # an earlier modification of the same block (raw bytes at the same offset, registered first): the block the
+        # CallPatch finally lands in and its offset there are no longer the registered ones
+        from gtirb_rewriting import Constraints, Patch
+
+        pre, pre_text = PRE_BYTES[_isa(abi)]
+        pre_patch = Patch.from_function(lambda ctx_: pre_text, Constraints())
+        for b in site_blocks:
+            world.ctx.insert_at(b, 0, pre_patch)
     for b in site_blocks:
         world.ctx.insert_at(b, 0, patch)
     try:
@@ -388,10 +408,16 @@ def _generate(case):
         raise
     g = Generated()
     g.code, g.relocs = world.inserted(block)
+    if pre:
+        if not g.code.startswith(pre):
+            raise HarnessError("earlier insertion is not in front of the CallPatch: %s" % g.code.hex())
+        g.code = g.code[len(pre):]
+        g.relocs = {off - len(pre): v for off, v in g.relocs.items()}
     g.reported = patch.seen.stack_adjustment
     g.asm = patch.asm
     g.callable_ok = all(
         isinstance(ctx, InsertionContext) and ctx.module is world.m and ctx.block is patch.seen.block
+        and ctx.block is block and ctx.offset == 0  # the registered (original) block and offset
         and ctx.stack_adjustment == patch.seen.stack_adjustment
         for _, ctx in calls if ctx.block is block
     )
